@@ -25,7 +25,7 @@ PROPS = {
         variants=V_DEFAULT,
         areas=["proto."],
         allowed_native=["Enc.Lemmas.Proto"],
-        main_theorem="Enc.Props.C03.Size_eq_len_Marshal, unmarshal_marshal, unmarshal_marshal_partial, unmarshal_marshal_map_partial",
+        main_theorem="Enc.Props.C03.Size_eq_len_Marshal, unmarshal_marshal, unmarshal_marshal_partial, unmarshal_marshal_map_partial; unmarshal_marshal_*_named / *_ptrs / *_opaque (named types, byte arrays, []*T, **T, opaque user message types); marshalTo/size under the user contract",
         rule="random message types (reflect.StructOf: scalars, byte arrays, RawMessage, nested/pointer structs, repeated, maps, "
              "protobuf struct tags with numbers/zigzag/fixed) x random values (integer width boundaries, float bit patterns, "
              "nil vs empty, collection sizes around the cap-10 growth); ops: Marshal (bytes+Size vs Lean model, byte for byte), "
@@ -37,7 +37,7 @@ PROPS = {
     "C12": dict(
         lean_modules=["Enc.Props.C12"],
         variants=V_DEFAULT, areas=["proto."], allowed_native=["Enc.Lemmas.Proto"],
-        main_theorem="Enc.Props.C12.struct_bytes(_maps), reference_decodes_marshal(_partial, _maps_partial), unmarshal_of_reference_decode(_maps_partial), unmarshal_iff_reference_decode",
+        main_theorem="Enc.Props.C12.struct_bytes(_maps), reference_decodes_marshal(_partial, _maps_partial), unmarshal_of_reference_decode(_maps_partial), unmarshal_iff_reference_decode; struct_bytes_*_named / *_ptrs / *_opaque, reference_decodes_marshal_*_named / *_ptrs / *_opaque, unmarshal_iff_reference_decode_named (noArr)",
         rule="random message types x values: (1) Marshal's bytes decoded by the Lean reference decoder (written from the protobuf "
              "encoding spec) must give the same field values; (2) legal re-encodings built by an independent wire-level "
              "re-encoder (field order shuffled, non-minimal varints in tags/lengths/values, embedded messages split in two "
@@ -48,7 +48,7 @@ PROPS = {
     "C16": dict(
         lean_modules=["Enc.Props.C16"],
         variants=V_DEFAULT, areas=["proto."], allowed_native=["Enc.Lemmas.Proto"],
-        main_theorem="Enc.Props.C16.marshalTo_spec",
+        main_theorem="Enc.Props.C16.marshalTo_spec; marshalTo_opaque, marshalTo_opaque_enough, marshalTo_opaque_short",
         rule="random message types x values x EVERY buffer length 0..Size+3 (sampled above 400 bytes in the quick tier, always "
              "including Size-2..Size+1) with 0xEE guard bytes from len to cap: count, bytes, error class, guard bytes; "
              "impl vs model (Enc.Model.Proto.encodeTo) vs the statement of the property",
@@ -58,7 +58,7 @@ PROPS = {
     "C07": dict(
         lean_modules=["Enc.Props.C07"],
         variants=V_DEFAULT, areas=["proto."], allowed_native=["Enc.Lemmas.Proto"],
-        main_theorem="Enc.Props.C07.unmarshal_ne_panic, unmarshal_skip_front, unmarshal_skip_anywhere, decode_bound, limit_only_adds_an_error, depth_limit, deep_rejected, max_depth_accepted, parse_total, scan_total, scan_eq_records, scan_truncated, scan_matches_unmarshal_partial",
+        main_theorem="Enc.Props.C07.unmarshal_ne_panic, unmarshal_skip_front, unmarshal_skip_anywhere, decode_bound, limit_only_adds_an_error, depth_limit, deep_rejected, max_depth_accepted, parse_total, scan_total, scan_eq_records, scan_truncated, scan_matches_unmarshal_partial; alloc_bound (allocation-accounting decoder: every type, every input, error paths included), decodeA_proj",
         rule="for random message types x values: every prefix of a valid encoding, 6 mutations, unknown fields of every wire "
              "type (numbers up to 2^29-1, nested) inserted at every top-level boundary, Scan/Parse vs an independent wire "
              "parser, allocation measured against K*len; plus adversarial byte strings (huge lengths, 8-13 byte varints). "
@@ -86,7 +86,7 @@ PROPS = {
         trusted_base=["Spec.Thrift is the reference implementation (no Apache Thrift library offline): written from the public "
                       "binary/compact protocol specifications", "io.Reader plumbing is modelled as reading from a byte list"],
         assumptions=["union fields, embedded-struct flattening and unsigned kinds are outside the modelled universe"],
-        main_theorem="Enc.Props.C04.unmarshal_marshal, unmarshal_marshal_exact, protocols_agree",
+        main_theorem="Enc.Props.C04.unmarshal_marshal, unmarshal_marshal_exact, protocols_agree; union_bytes, union_round_trip, union_last_member_wins, union_zero_member_ambiguous_iff, embedded_eq_flat, embedded_decode_eq_flat, index_paths_independent",
         rule="random struct types (ids in any order, gaps >15, spans >64, required/optional/enum, nested, pointers, lists, sets, "
              "maps) x random values x {binary strict, binary non-strict, compact}: Unmarshal(Marshal(v)) vs canon(v), bytes vs "
              "the Lean model, cross-protocol equality of decoded values, Encoder/Decoder.Reset vs fresh",
@@ -97,7 +97,7 @@ PROPS = {
         trusted_base=["Spec.Thrift is the reference implementation (no Apache Thrift library offline): written from the public "
                       "binary/compact protocol specifications", "io.Reader plumbing is modelled as reading from a byte list"],
         assumptions=["union fields, embedded-struct flattening and unsigned kinds are outside the modelled universe"],
-        main_theorem="Enc.Props.C08.unmarshal_total, unmarshal_trunc, unmarshal_append_trailing, skip_consumes_exactly",
+        main_theorem="Enc.Props.C08.unmarshal_total, unmarshal_trunc, unmarshal_append_trailing, skip_consumes_exactly; mismatch_skipped, depth_limit(_exact), delta_stop_rejected, unmarshalU_total / _trunc / _append_trailing (union types), unmarshalUE_total, thrift_alloc_unbounded (the known finding as a theorem)",
         rule="for random types x values x 3 protocols: truncation at EVERY offset (error class must be unexpected-EOF, EOF only "
              "for empty input), trailing byte, unknown field of every thrift type (nested structs, lists, maps, sets, compact "
              "bool-in-header) inserted before the stop field, 4 mutations in strict/non-strict mode, allocation vs K*len; "
@@ -109,7 +109,7 @@ PROPS = {
         trusted_base=["Spec.Thrift is the reference implementation (no Apache Thrift library offline): written from the public "
                       "binary/compact protocol specifications", "io.Reader plumbing is modelled as reading from a byte list"],
         assumptions=["union fields, embedded-struct flattening and unsigned kinds are outside the modelled universe"],
-        main_theorem="Enc.Props.C13.encode_compact_eq_spec, encode_binary_eq_spec_mod, accept_unmarshal",
+        main_theorem="Enc.Props.C13.encode_compact_eq_spec, encode_binary_eq_spec_mod, accept_unmarshal; union_bytes_eq_spec, compact_message_roundtrip, writer_never_delta_stop",
         rule="random types x values x 3 protocols: Marshal's bytes vs the Lean model (byte for byte) and vs the Lean reference "
              "encoder written from the Apache specifications; compact long-form re-encodings (field headers, list headers) must "
              "decode to the same value; message headers for every type/name/seqid class",
@@ -148,7 +148,7 @@ PROPS = {
         lean_modules=["Enc.Props.C17"],
         variants=V_DEFAULT, areas=["json.Tokenizer", "json.stack", "json.acquireStack", "json.releaseStack", "json.RawValue", "json.decoder_parse"],
         allowed_native=["Enc.Lemmas.Json", "Lemmas.JsonScan"],
-        main_theorem="Enc.Props.C17 (token stream = grammar-directed specification)",
+        main_theorem="Enc.Props.C17 (token stream = grammar-directed specification); kind_is_class, string_value, int_value, uint_value, float_literal, accessors_eq_spec",
         rule="grammar-directed documents (empty containers inside non-empty ones, keys after nested objects, depth <= 12, "
              "white-space variants) + one-edit mutations + arbitrary byte strings over the JSON alphabet: full token stream "
              "(delim, value span, depth, index, IsKey, Remaining) vs the Lean model; for valid documents vs the Lean "
@@ -163,7 +163,7 @@ PROPS = {
                                    "proto.parseRewriteTemplate", "proto.ParseRewriteTemplate", "proto.bitOrRW", "proto.BitOr", "proto.Append", "proto.Parse",
                                    "proto.RawMessage"],
         allowed_native=["Enc.Lemmas.Proto"],
-        main_theorem="Enc.Props.C19.rewrite_spec, rewrite_spec_exact, untemplated_fields_kept, rewrite_never_panics",
+        main_theorem="Enc.Props.C19.rewrite_spec, rewrite_spec_exact, untemplated_fields_kept, rewrite_never_panics; template_tree_is_rw, template_leaf_value (15 kinds), template_rewrite_value_flat / _nested / _spec, template_rewrite_value_bitor_flat, bitor_zigzag_wrong, bitor_first_occurrence_wrong",
         rule="(1) MessageRewriters assembled from RawMessage / Multi leaves at field numbers 1..70000 (incl. 255/256/257/4095/65535/"
              "65536) x inputs where templated numbers are absent / occur once / repeatedly, interleaved with other fields and "
              "mutated: output bytes vs the Lean model, parsed records vs the Lean record-level specification, input untouched, "
@@ -220,7 +220,7 @@ PROPS = {
         lean_modules=["Enc.Props.C15"],
         variants=V_DEFAULT, areas=["json.Append", "json.AppendEscape", "json.AppendUnescape", "json.encoder"],
         allowed_native=["Enc.Lemmas.Json", "Lemmas.Json"],
-        main_theorem="Enc.Props.C15.append_eq_render, append_oblivious, grow_irrelevant (slice model: Append = prefix ++ render for every prefix, capacity and growth policy)",
+        main_theorem="Enc.Props.C15.append_eq_render, append_oblivious, grow_irrelevant (slice model: Append = prefix ++ render for every prefix, capacity and growth policy); encodeFloat_oblivious; appendEscape_eq, appendUnescape_eq, appendUnquote_eq and their _oblivious corollaries",
         rule="(a) the Lean slice model's value universe (null/bool/int/string/[]byte/failing value/arrays/structs with omitempty, "
              "`,string`, nil embedded pointer) realised as Go values with reflect: implementation = slice model = prefix ++ render over "
              "a (prefix length x spare capacity) grid placed around the encoded size; (b) on the real code only: every type-directed "
